@@ -150,29 +150,49 @@ class LazyMixin:
         cond = z3.And(*conds) if conds else z3.BoolVal(True)
         return var, dom, cond, elt, pos, facts, size
 
+    def hoist_facts(self, var, dom, facts):
+        """type facts about terms under a binder are asserted on their own (valid for every element of the
+        domain), never used as antecedents / conjuncts of the quantified formula itself"""
+        from .spec import auto_patterns
+        if not facts:
+            return
+        fq = z3.Implies(dom, z3.And(*facts))
+        fp = auto_patterns([var], fq)
+        self.side_fact(z3.ForAll([var], fq, patterns=fp) if fp else z3.ForAll([var], fq))
+
+    def _q(self, kind, var, body):
+        from .spec import auto_patterns
+        pats = auto_patterns([var], body)
+        q = z3.ForAll if kind == "forall" else z3.Exists
+        qid = f"code:{getattr(self, 'cur_line', 0)}"
+        return q([var], body, patterns=pats, qid=qid) if pats else q([var], body, qid=qid)
+
     def lazy_exists(self, lz: LazySeq, eq_item=None, truthy_elt=False):
         var, dom, cond, elt, pos, facts, _ = self.lazy_at(lz)
-        body = [dom, *facts, cond]
+        self.hoist_facts(var, dom, facts)
+        body = [dom, cond]
         if eq_item is not None:
             body.append(self.py_eq(elt, eq_item))
         if truthy_elt:
             body.append(self.truthy(elt))
-        return z3.Exists([var], z3.And(*body))
+        return self._q("exists", var, z3.And(*body))
 
     def lazy_forall(self, lz: LazySeq):
         var, dom, cond, elt, pos, facts, _ = self.lazy_at(lz)
-        return z3.ForAll([var], z3.Implies(z3.And(dom, *facts, cond), self.truthy(elt)))
+        self.hoist_facts(var, dom, facts)
+        return self._q("forall", var, z3.Implies(z3.And(dom, cond), self.truthy(elt)))
 
     def lazy_first(self, lz: LazySeq, line: int):
         """first element of an ordered filtered sequence: (value, found)"""
         var, dom, cond, elt, pos, facts, _ = self.lazy_at(lz)
         if pos is None:
             raise Unsupported("first element of an unordered source")
-        found = z3.Exists([var], z3.And(dom, *facts, cond))
+        self.hoist_facts(var, dom, facts)
+        found = self._q("exists", var, z3.And(dom, cond))
         m = self.w.fresh_sort(var.sort(), "first")
         sub = lambda f: z3.substitute(f, (var, m))
-        least = z3.ForAll([var], z3.Implies(z3.And(dom, *facts, cond), pos >= sub(pos)))
-        self.side_fact(z3.Implies(found, z3.And(sub(dom), sub(cond), *[sub(f) for f in facts], least)))
+        least = self._q("forall", var, z3.Implies(z3.And(dom, cond), pos >= sub(pos)))
+        self.side_fact(z3.Implies(found, z3.And(sub(dom), sub(cond), least)))
         return self._subst_value(elt, var, m), found
 
     def _subst_value(self, v, var, m):
